@@ -73,6 +73,12 @@ var profiles = map[string]profile{
 			{name: "t0", admin: "create t0 (a,b) key()", ncols: 2, dom: []int{3, 2}, opt: []bool{true, true}},
 			{name: "t2", admin: "create t2 (p,q,r) key(p,q) index(r)", ncols: 3, dom: []int{2, 2, 2}, opt: []bool{false, true, true}},
 		}},
+	// index creation / removal on a populated table while transactions commit and the merger runs
+	"admin": {name: "admin", clients: 3, trans: 50, maxOps: 3, readFrac: 20, persist: 4 * time.Millisecond, admin: true,
+		tables: []tableDef{
+			{name: "t1", admin: "create t1 (k,u,v,w) key(k) index unique(u) index(v)", ncols: 4, dom: []int{8, 3, 2, 3}, opt: []bool{false, true, true, true}},
+			{name: "t2", admin: "create t2 (p,q,r) key(p,q) index(r)", ncols: 3, dom: []int{2, 3, 2}, opt: []bool{false, true, true}},
+		}},
 	// foreign keys in all three modes + self reference
 	"fkey": {name: "fkey", clients: 3, trans: 40, maxOps: 4, readFrac: 15, persist: 5 * time.Millisecond,
 		tables: []tableDef{
@@ -91,6 +97,7 @@ var (
 	prof    profile
 	commits atomic.Int64 // number of Commit hook events so far
 	metaC   sync.Map     // *meta.Meta -> commit count (int64)
+	metaS   sync.Map     // *meta.Meta -> state update number (debugging aid)
 	tranIds sync.Map     // *db19.UpdateTran -> int
 	nextId  atomic.Int64
 	// pending kind set by Commit/MergeApply/PersistApply events, consumed by State
@@ -136,7 +143,7 @@ func main() {
 		ncommit += b
 		nstate += nState
 	}
-	vh.Summary("profile", prof.name, "scenarios", nscen, "transactions", ntran, "commits", ncommit,
+	vh.Summary("alters", nAlter.Load(), "merges_gated", nGated.Load(), "profile", prof.name, "scenarios", nscen, "transactions", ntran, "commits", ncommit,
 		"state_updates", nstate, "events", tr.N)
 }
 
@@ -145,6 +152,7 @@ func scenario(seed int64, sn int) (int, int) {
 	nextId.Store(0)
 	nState = 0
 	metaC = sync.Map{}
+	metaS = sync.Map{}
 	tranIds = sync.Map{}
 	db = db19.CreateDb(stor.HeapStor(64 * 1024))
 	db19.StartConcur(db, prof.persist)
@@ -166,6 +174,13 @@ func scenario(seed int64, sn int) (int, int) {
 			ntran.Add(int64(groupInterleaved(r)))
 		}
 	}
+	stopAdmin := make(chan struct{})
+	adminDone := make(chan struct{})
+	if prof.admin {
+		go adminLoop(rand.New(rand.NewSource(seed-99)), stopAdmin, adminDone)
+	} else {
+		close(adminDone)
+	}
 	for c := 0; c < prof.clients && prof.pairs == 0; c++ {
 		wg.Add(1)
 		go func(c int) {
@@ -184,6 +199,9 @@ func scenario(seed int64, sn int) (int, int) {
 		}(c)
 	}
 	wg.Wait()
+	close(stopAdmin)
+	<-adminDone
+	vh.SetGate(nil)
 	// quiesce: stop the pipeline (drains merges, final persist), then full check
 	db.CloseKeepMapped()
 	vh.SetSink(nil)
@@ -192,13 +210,90 @@ func scenario(seed int64, sn int) (int, int) {
 	return int(ntran.Load()), int(commits.Load())
 }
 
+// ---------------------------------------------------------------- admin
+
+var (
+	alterPending atomic.Bool
+	alterBuilt   atomic.Pointer[chan struct{}]
+	nAlter       atomic.Int64
+	nGated       atomic.Int64
+)
+
+// gate: park the merger at the start of a merge while an index build is in flight,
+// until the build has taken its snapshot (the window of DESIGN F1), bounded by a timeout
+func gate(point string, kv []any) {
+	switch point {
+	case "merge.begin":
+		if alterPending.Load() {
+			if ch := alterBuilt.Load(); ch != nil {
+				nGated.Add(1)
+				select {
+				case <-*ch:
+				case <-time.After(300 * time.Millisecond):
+				}
+			}
+		}
+	case "alter.built":
+		if ch := alterBuilt.Load(); ch != nil {
+			select {
+			case <-*ch:
+			default:
+				close(*ch)
+			}
+		}
+	}
+}
+
+func adminLoop(r *rand.Rand, stop, done chan struct{}) {
+	defer close(done)
+	vh.SetGate(gate)
+	have := false
+	for {
+		select {
+		case <-stop:
+			return
+		case <-time.After(time.Duration(1+r.Intn(6)) * time.Millisecond):
+		}
+		cmd := "alter t1 create index(w)"
+		if have {
+			cmd = "alter t1 drop index(w)"
+		}
+		ch := make(chan struct{})
+		alterBuilt.Store(&ch)
+		alterPending.Store(!have && r.Intn(4) != 0)
+		res := "ok"
+		func() {
+			defer func() {
+				if e := recover(); e != nil {
+					res = clip(fmt.Sprint(e))
+				}
+			}()
+			query.DoAdmin(db, cmd, nil)
+		}()
+		alterPending.Store(false)
+		if res == "ok" {
+			have = !have
+			nAlter.Add(1)
+		}
+		tr.Emit(vh.E("Admin", "cmd", cmd, "res", res))
+	}
+}
+
 // ---------------------------------------------------------------- schema event
 
+var baseIdx = map[string]int{}
+
 func emitSchema() {
-	st := db.GetState()
+	for _, td := range prof.tables {
+		baseIdx[td.name] = len(db.GetState().Meta.GetRoSchema(td.name).Indexes)
+	}
+	tr.Emit(schemaEvent("Schema", db.GetState().Meta))
+}
+
+func schemaEvent(name string, m *meta.Meta) *vh.Ev {
 	tabs := []any{}
 	for _, td := range prof.tables {
-		ts := st.Meta.GetRoSchema(td.name)
+		ts := m.GetRoSchema(td.name)
 		idx := []any{}
 		for _, ix := range ts.Indexes {
 			cols := []int{}
@@ -218,7 +313,16 @@ func emitSchema() {
 		}
 		tabs = append(tabs, map[string]any{"name": td.name, "ncols": td.ncols, "idx": idx})
 	}
-	tr.Emit(vh.E("Schema", "tables", tabs))
+	return vh.E(name, "tables", tabs)
+}
+
+func schemaChanged(oldM, newM *meta.Meta) bool {
+	for _, td := range prof.tables {
+		if oldM.GetRoSchema(td.name) != newM.GetRoSchema(td.name) {
+			return true
+		}
+	}
+	return false
 }
 
 func colIndex(cols []string, c string) int {
@@ -266,6 +370,10 @@ func sink(seq int64, ev string, kv []any) {
 		}
 		metaC.Store(newS.Meta, c)
 		nState++
+		metaS.Store(newS.Meta, nState)
+		if schemaChanged(oldS.Meta, newS.Meta) {
+			tr.Emit(schemaEvent("SchemaU", newS.Meta))
+		}
 		tr.Emit(stateEvent(kind, int(c), oldS.Meta, newS.Meta, false))
 	}
 }
@@ -283,7 +391,7 @@ func stateEvent(kind string, c int, oldM, newM *meta.Meta, all bool) *vh.Ev {
 		}
 		tabs = append(tabs, projectTable(newM, td.name, ti))
 	}
-	return vh.E("StateU", "kind", kind, "c", c, "tables", tabs)
+	return vh.E("StateU", "kind", kind, "c", c, "s", nState, "tables", tabs)
 }
 
 func projectTable(m *meta.Meta, name string, ti *meta.Info) map[string]any {
@@ -475,10 +583,10 @@ func beginTran(r *rand.Rand, update bool) *client {
 			return nil
 		}
 		tranIds.Store(c.ut, c.id)
-		tr.Emit(vh.E("Begin", "t", c.id, "kind", "u", "c", snapC(db19.VerifSnapshotMeta(c.ut))))
+		tr.Emit(vh.E("Begin", "t", c.id, "kind", "u", "c", snapC(db19.VerifSnapshotMeta(c.ut)), "s", snapS(db19.VerifSnapshotMeta(c.ut))))
 	} else {
 		c.rt = db.NewReadTran()
-		tr.Emit(vh.E("Begin", "t", c.id, "kind", "r", "c", snapC(db19.VerifReadMeta(c.rt))))
+		tr.Emit(vh.E("Begin", "t", c.id, "kind", "r", "c", snapC(db19.VerifReadMeta(c.rt)), "s", snapS(db19.VerifReadMeta(c.rt))))
 	}
 	return c
 }
@@ -509,6 +617,13 @@ func snapC(m *meta.Meta) int {
 		return -1 // unknown state: the trace spec rejects this
 	}
 	return int(v.(int64))
+}
+
+func snapS(m *meta.Meta) int {
+	if v, ok := metaS.Load(m); ok {
+		return v.(int)
+	}
+	return 0
 }
 
 func clip(s string) string {
@@ -674,7 +789,11 @@ func (c *client) keyIndex(ts *meta.Schema) int {
 // scan an index: full (to eof) on any index, or a range / partial scan on a key index
 func (c *client) scan(td tableDef) {
 	ts := c.schema(td)
-	ix := c.r.Intn(len(ts.Indexes))
+	nix := len(ts.Indexes)
+	if b, ok := baseIdx[td.name]; ok && nix > b {
+		nix = b // indexes added by the admin goroutine come and go; positions beyond the base are not stable
+	}
+	ix := c.r.Intn(nix)
 	isKey := ts.Indexes[ix].Mode == 'k' && len(ts.Indexes[ix].Columns) > 0
 	dir := 1
 	if c.r.Intn(2) == 0 {
